@@ -62,6 +62,8 @@ func load() {
 }
 
 func fresh(name string) string {
+	apiMu.Lock()
+	defer apiMu.Unlock()
 	n := seq[name]
 	seq[name] = n + 1
 	if n == 0 {
@@ -123,14 +125,18 @@ func Assume(cond bool) {
 // Region declares, for the next Assert only, a known-finding region: a
 // violation inside it is attributed to the finding with that id in
 // /verif/known_findings.json (if it is listed there as open).
-func Region(id string, in bool) { regions = append(regions, regionT{id, in}) }
+func Region(id string, in bool) { apiMuDo(func() { regions = append(regions, regionT{id, in}) }) }
 
 func Assert(label string, cond bool) {
+	apiMu.Lock()
 	regs := regions
 	regions = nil
+	apiMu.Unlock()
 	if cond {
 		return
 	}
+	apiMu.Lock()
+	defer apiMu.Unlock()
 	for _, r := range regs {
 		if r.in {
 			Knowns = append(Knowns, r.id+" "+label)
@@ -141,9 +147,11 @@ func Assert(label string, cond bool) {
 	panic(stop{"assertion failed: " + label})
 }
 
-func Cover(label string) { Covered = append(Covered, label) }
+func Cover(label string) { apiMuDo(func() { Covered = append(Covered, label) }) }
 
-func Observe(key string, v any) { Observed = append(Observed, fmt.Sprintf("%s=%v", key, v)) }
+func Observe(key string, v any) {
+	apiMuDo(func() { Observed = append(Observed, fmt.Sprintf("%s=%v", key, v)) })
+}
 
 // Opaque returns a fresh token, distinct from every other opaque token.
 func Opaque(name string) string { return "⟦" + fresh("opaque:"+name) + "⟧" }
